@@ -8,6 +8,7 @@
 //! coq/Tx/*.v to recompute.
 mod cap;
 mod resolve;
+mod storehist;
 mod time;
 
 use hx_common::*;
@@ -156,6 +157,7 @@ fn main() {
     resolve::stream_seq(seed, 500 * k, &mut sink);
     resolve::stream_block(seed, 500 * k, &mut sink);
     resolve::stream_history(seed, 300 * k, &mut sink);
+    storehist::stream_store_history(seed, 60 * k, &mut sink);
 
     if only.is_some() {
         std::process::exit(if sink.replay_failed { 1 } else { 0 });
